@@ -61,6 +61,8 @@ def build_nodes(case):
               'start': (case.get('starts') or [0] * 8)[i], 'required': [c for c, cs in topo if cs and nid in cs] if case.get('required', True) else None}
         if case.get('caller') == 'in_handler':
             nd['in_handler'] = True
+        if case.get('loop_exc') is False and nid != x:
+            nd['loop_exc'] = False      # the neighbours log and swallow exceptions of their processing loop (LOOP_EXC=false); an obeyed exit is not one of those
         if nid == x and case.get('exit_after') is not None:
             nd['cfg'] = {'exit_after': case['exit_after']}
             if case.get('starved'):     # nobody takes its frames: every send runs into outputs_timeout and the frames are dropped
@@ -173,6 +175,8 @@ def run_case(case):
         classes.append('run() called from inside an exception handler')
     if case.get('metrics'):
         classes.append('dedicated metrics output with a listener')
+    if case.get('loop_exc') is False:
+        classes.append('neighbours run with loop_exc=False')
     if case.get('exit_after') is None and state['fired'] is None:
         return ok(False, classes + ['injection point not reached'], None)
     pol = lambda nid: tuple(FLAGS[v] for v in (case['policies'].get(nid) or case['policies']['*']))
@@ -261,7 +265,10 @@ def run_case(case):
     if announce is not None:
         bit = 1 if announce == 'clean' else 2
         if all(pol(nid)[0] & bit and pol(nid)[1] & bit for nid, _ in topo) and state['process_before'] >= 1 and not case.get('starved'):
-            still = [nid for nid, _ in topo if (nid, 0) not in ends]
+            # an announcement only reaches filters that are there to hear it: the whole pipeline must have been flowing (every consumer had processed
+            # a frame) when the first filter ended, otherwise a late starter legitimately waits for a publisher that is already gone
+            flowing = all(nid == x or srcs is None or any('in' in r and r['t'] <= state['fired'] for r in calls.get((nid, 0), [])) for nid, srcs in topo)
+            still = [nid for nid, _ in topo if (nid, 0) not in ends] if flowing else []
             if still:
                 return bad(f'all filters propagate and obey {announce} exits, yet {still} are still running 3 s after {x} ended', f'pipeline-not-terminated:{announce}', classes)
     if len(expected) == len(topo):
@@ -316,6 +323,12 @@ def matrix_cases(tier):
             if what in ('exit', 'stop_evt'):
                 for pol in ('all', 'clean'):
                     yield {'pos': pos, 'where': where, 'k': k, 'what': what, 'policies': {'*': [pol, pol]}, 'net': FIXED_NET, 'caller': 'in_handler'}
+    # the neighbours swallow loop exceptions (loop_exc=False)
+    for pos in POSITIONS:
+        for (where, k, what) in INJECTIONS:
+            if where == 'process' and what in ('raise', 'exit_exc', 'exit'):
+                for pol in ('all', 'error'):
+                    yield {'pos': pos, 'where': where, 'k': k, 'what': what, 'policies': {'*': [pol, pol]}, 'net': FIXED_NET, 'loop_exc': False}
     # the exiting filter has a dedicated metrics output with a listener on it
     for pos in POSITIONS:
         for (where, k, what) in INJECTIONS:
@@ -355,7 +368,8 @@ def case_strategy(draw, tier):
     return {'pos': pos, 'where': where, 'k': k, 'what': what, 'policies': pols, 'work': draw(st.sampled_from([5, 20, 60])),
             'net': draw(scen.net_strategy(classes=('fast', 'lan', 'sub_poll'), max_drops=0)),
             'starts': draw(st.lists(st.sampled_from([0, 0, 30, 200]), min_size=8, max_size=8)), 't_stop_ms': draw(st.integers(300, 2500)),
-            'required': draw(st.booleans()), 'caller': draw(st.sampled_from(['plain', 'plain', 'in_handler'])), 'metrics': draw(st.sampled_from([False, False, True]))}
+            'required': draw(st.booleans()), 'caller': draw(st.sampled_from(['plain', 'plain', 'in_handler'])), 'metrics': draw(st.sampled_from([False, False, True])),
+            'loop_exc': draw(st.sampled_from([None, None, False]))}
 
 
 PARTS = [
